@@ -114,6 +114,18 @@ def specs() -> list[tuple[str, str, object, str]]:
     add("choice:hex", "'0'..'9' | 'a'..'f' | 'A'..'F'", _any(d, _rng("a", "f"), _rng("A", "F")))
     add("choice:space-tab-nl", '" " | "\\t" | "\\n" | "\\r"', _chars(" \t\n\r"))
     add("choice:ci+range", '^"k" | \'0\'..\'1\'', _any(_chars("kK01")), "ascii")
+    # size: many alternatives / many ranges in one squashed class (merge loops, class-size thresholds)
+    sparse = [0x100 + 7 * i for i in range(200)]
+    add("choice:200-sparse-chars", " | ".join('"\\u{%04x}"' % c for c in sparse), lambda c, s_=frozenset(sparse): c in s_)
+    many = [(0x400 + 10 * i, 0x400 + 10 * i + 4) for i in range(100)]
+    add("choice:100-ranges", " | ".join("'\\u{%04x}'..'\\u{%04x}'" % ab for ab in many), lambda c: 0x400 <= c < 0x400 + 1000 and (c - 0x400) % 10 <= 4)
+    rr = random.Random(12)
+    mixed = [(a0, a0 + rr.choice([0, 1, 3, 20, 90])) for a0 in (rr.randrange(0x20, 0x2F0) for _ in range(60))]
+    add(
+        "choice:60-random-overlapping-ranges", " | ".join("'\\u{%04x}'..'\\u{%04x}'" % ab for ab in mixed),
+        lambda c, m_=tuple(mixed): any(a0 <= c <= b0 for a0, b0 in m_),
+    )
+    add("choice:nested-in-middle", "'0'..'9' | '2'..'5' | 'a'..'z' | 'c'..'e' | 'x'..'z'", _any(d, lo))
     # case-insensitive single letters (ASCII input only)
     for x in ["a", "k", "s", "Z", "i", "1", "-"]:
         add(f"ci:{x}", "^" + lit(x), _chars(x.lower() + x.upper()), "ascii")
